@@ -1027,6 +1027,7 @@ func checkAlgorithmTables(c *Ctx, r *Report) {
 	gparam := integFn.Params[1]
 	gotInt := map[int64]map[[2]string]bool{}
 	keyOKs := map[int64]bool{}
+	refusedInt, refusedIntPos, nRefused := true, integFn.Pos(), 0
 	completeI := enumPaths(integFn, 1, 8192, func(p CPath) {
 		ret, isRet := p.Last().(*ssa.Return)
 		if !isRet || ret.Parent() != integFn {
@@ -1034,6 +1035,12 @@ func checkAlgorithmTables(c *Ctx, r *Report) {
 		}
 		k, has := p.caseOf(integFn.Params[0])
 		if _, listed := wantInt[k]; !has || !listed {
+			// an algorithm the table does not list (None, MD5-128, OEM numbers, anything
+			// unknown) is refused: no hasher comes back without an error
+			if c.errOutcome(integFn, p) != 1 && !isNilConst(p.Resolve(ret.Results[0])) {
+				refusedInt, refusedIntPos = false, ret.Pos()
+			}
+			nRefused++
 			return
 		}
 		got := [2]string{"?", "?"}
@@ -1096,6 +1103,7 @@ func checkAlgorithmTables(c *Ctx, r *Report) {
 		ok := len(gotInt[k]) == 1 && gotInt[k][w] && keyOKs[k]
 		r.Check(ok, c.FnName(integFn)+fmt.Sprintf("|algorithm %d", k), integFn.Pos(), fmt.Sprintf("%v keyed by K(1)", w), fmt.Sprintf("integrity algorithm %d maps to %v (keyed by K(1): %v), specification says %v keyed by K1", k, keysOf2(gotInt[k]), keyOKs[k], w))
 	}
+	r.Check(refusedInt && nRefused > 0, c.FnName(integFn)+"|other algorithms", refusedIntPos, "refused", "an integrity algorithm outside the specification table (None, MD5-128, an unknown number) yields a usable hasher instead of an error: packets are signed with an algorithm the BMC did not agree to")
 	// confidentiality: 1 → AES-128-CBC keyed by first 16 bytes of K(2)
 	okC, nC := true, 0
 	completeC := enumPaths(ciphFn, 1, 8192, func(p CPath) {
